@@ -4315,6 +4315,21 @@ fn check_entity_ref(
         None => seen.insert(entity.name().to_string(), false),
     };
 
+    if !attribute {
+        // The replacement text of an entity referred to in content matches `content`.
+        let mut text = String::new();
+        for value in entity.values().unwrap_or_default() {
+            match value {
+                XmlEntityValue::Character(v, 10) => text.push(char_from_char10(v)?),
+                XmlEntityValue::Character(v, _) => text.push(char_from_char16(v)?),
+                _ => text.push_str(value.to_string().as_str()),
+            }
+        }
+        if !matches!(xml_parser::content(text.as_str()), Ok(("", _))) {
+            return Err(error::Error::InvalidData(entity.name().to_string()));
+        }
+    }
+
     for value in entity.values().unwrap_or_default() {
         // WFC: No < in Attribute Values
         let lt = match value {
